@@ -251,6 +251,45 @@ fn run_pair(t: &mut Tape, cx: &mut Cx) -> Result<(), String> {
     Ok(())
 }
 
+/// Raw constructors and reference-returning functions hand out accessors with a lifetime chosen
+/// by the caller; their `unsafe` marker is what keeps safe client programs from building an
+/// accessor that outlives its memory. Each must be rejected (E0133) when called from safe code,
+/// while the same call inside an `unsafe` block compiles.
+const UNSAFE_CALLS: &[(&str, &str, &str)] = &[
+    ("VolatileSlice::new", "let mut buf = vec![0u8; 64]; let p = buf.as_mut_ptr();", "VolatileSlice::new(p, 64)"),
+    ("VolatileSlice::with_bitmap", "let mut buf = vec![0u8; 64]; let p = buf.as_mut_ptr();", "VolatileSlice::with_bitmap(p, 64, (), None)"),
+    ("VolatileRef::new", "let mut buf = vec![0u8; 64]; let p = buf.as_mut_ptr();", "VolatileRef::<u32>::new(p)"),
+    ("VolatileRef::with_bitmap", "let mut buf = vec![0u8; 64]; let p = buf.as_mut_ptr();", "VolatileRef::<u32, ()>::with_bitmap(p, (), None)"),
+    ("VolatileArrayRef::new", "let mut buf = vec![0u8; 64]; let p = buf.as_mut_ptr();", "VolatileArrayRef::<u32>::new(p, 4)"),
+    ("VolatileArrayRef::with_bitmap", "let mut buf = vec![0u8; 64]; let p = buf.as_mut_ptr();", "VolatileArrayRef::<u32, ()>::with_bitmap(p, 4, (), None)"),
+    ("aligned_as_ref", "let parent = MmapRegion::<()>::new(4096).unwrap();", "parent.aligned_as_ref::<u64>(0).unwrap()"),
+    ("aligned_as_mut", "let parent = MmapRegion::<()>::new(4096).unwrap();", "parent.aligned_as_mut::<u64>(0).unwrap()"),
+    ("MmapRegion::build_raw", "let keep = MmapRegion::<()>::new(4096).unwrap(); let p = keep.as_ptr();", "MmapRegion::<()>::build_raw(p, 4096, 3, 0x22).unwrap()"),
+    ("with_raw_mmap_pointer", "let keep = MmapRegion::<()>::new(4096).unwrap(); let p = keep.as_ptr();", "vm_memory::mmap::MmapRegionBuilder::<()>::new(4096).with_raw_mmap_pointer(p)"),
+];
+
+fn run_unsafe_required(t: &mut Tape, cx: &mut Cx) -> Result<(), String> {
+    let (name, setup, call) = UNSAFE_CALLS[t.idx(UNSAFE_CALLS.len())];
+    let what = format!("safe call of {}", name);
+    note!(cx, "{}", what);
+    cx.nt("unsafe_marker_required");
+    let tag = format!("u{}", UNSAFE_CALLS.iter().position(|c| c.0 == name).unwrap());
+    let control = format!("{}fn main() {{ {} let acc = unsafe {{ {} }}; use_it(&acc); }}\n", PRELUDE, setup, call);
+    let (ok, codes, short) = compile(&control, &format!("{}c", tag)).map_err(|e| format!("HARNESS-PANIC: {}", e))?;
+    if !ok {
+        return Err(format!("HARNESS-PANIC: control program for {} does not compile: {:?} {}", name, codes, short));
+    }
+    let safe = format!("{}fn main() {{ {} let acc = {}; use_it(&acc); }}\n", PRELUDE, setup, call);
+    let (ok, codes, short) = compile(&safe, &format!("{}e", tag)).map_err(|e| format!("HARNESS-PANIC: {}", e))?;
+    ensure!(!ok, "{} can be called from safe code: a client can build an accessor with a lifetime of its own choosing without `unsafe`\n--- program ---\n{}", name, safe.lines().last().unwrap_or(""));
+    ensure!(!codes.is_empty() && codes.iter().all(|c| c == "E0133"), "HARNESS-PANIC: safe call of {} is rejected for another reason: {:?} {}", name, codes, short);
+    Ok(())
+}
+
+fn gen_unsafe(_t: Tier) -> Box<dyn Iterator<Item = Vec<u64>>> {
+    Box::new((0..UNSAFE_CALLS.len() as u64).map(|i| vec![i]))
+}
+
 fn gen_pairs(_t: Tier) -> Box<dyn Iterator<Item = Vec<u64>>> {
     let mut v = Vec::new();
     for (pi, p) in PARENTS.iter().enumerate() {
@@ -269,7 +308,10 @@ fn gen_pairs(_t: Tier) -> Box<dyn Iterator<Item = Vec<u64>>> {
 }
 
 pub fn subchecks() -> Vec<SubCheck> {
-    vec![SubCheck { name: "programs", builds: &[Build::Std], kind: Kind::Exhaustive { gen: gen_pairs }, run: run_pair }]
+    vec![
+        SubCheck { name: "programs", builds: &[Build::Std], kind: Kind::Exhaustive { gen: gen_pairs }, run: run_pair },
+        SubCheck { name: "unsafe_required", builds: &[Build::Std], kind: Kind::Exhaustive { gen: gen_unsafe }, run: run_unsafe_required },
+    ]
 }
 
 #[allow(dead_code)]
